@@ -58,6 +58,15 @@ def run(tier):
     vlib.vh(["resp", "encode", "--seed", vlib.seed(), "--n", 20000 if thorough else 3000, "--out", xp])
     runs = validate(xp, "encoders")
     rep.sample(runs[sorted(runs)[7]][0])
+    # frames far larger than any buffer constant, fed whole and in pieces
+    bp = os.path.join(wd, "fragbig.ndjson")
+    vlib.vh(["resp", "fragbig", "--out", bp])
+    validate(bp, "fragbig")
+    # connections that come and go on one shared buffer pool; a client that dies inside a frame leaves nothing behind
+    tr = os.path.join(wd, "pool.ndjson")
+    vlib.vh(["conn", "pool", "--out", tr])
+    vlib.validate_runs(rep, "ConnTrace", "ConnTrace", tr, wd, "shared_pool", describe="connection case rejected: {what}", strip=("s", "cmds", "replies"))
+    os.remove(tr)
     rp = os.path.join(wd, "random.ndjson")
     out, _ = vlib.vh(["resp", "random", "--seed", vlib.seed(), "--n", 3000000 if thorough else 300000,
                       "--log", 20000 if thorough else 5000, "--out", rp])
